@@ -29,6 +29,7 @@ TRUSTED_BASE = [
     "the Python harness (virtual clock, scenario runner, canonicaliser, table extractor) - a bug there can hide a divergence, not make a false theorem check",
     "correspondence model<->code is differential testing on the scenarios run (finite tables are complete); CPython semantics, zero-time computation on the virtual clock",
     "float->integer conversions of configuration values (timeouts, override_receiver_stmin, rate limiter window/bit budget) are evaluated by Python and handed to the model",
+    "source-agreement leaves (Isotp.PyAgree.*): the ast dumper harness/py2lean.py and the interpreter of the Python subset lean/Isotp/Py/Ast.lean (the stated semantics of that subset)",
 ]
 
 
@@ -391,6 +392,17 @@ def run_check(pid, tier, seed):
             tab = None
             notes.append('table extraction failed: ' + traceback.format_exc()[-600:])
             proof_broken.append(('tables', 'table extraction raised: ' + traceback.format_exc()[-300:]))
+        try:
+            # the source translator: dumps the pure functions of /repo, as they are now, into lean/Isotp/Py/Src.lean; the PyAgree leaves of this
+            # property (if any) prove that interpreting that dump gives what the model computes
+            import py2lean
+            src = py2lean.main()
+            bad_src = [k for k, v in src['functions'].items() if v != 'ok']
+            if bad_src:
+                notes.append('source translator: outside the supported subset or missing: ' + ', '.join(bad_src))
+        except Exception:
+            src = None
+            proof_broken.append(('source-translator', 'py2lean raised: ' + traceback.format_exc()[-300:]))
         ok, out, bt = lake_build(['driver'])
         if not ok:
             log(out[-3000:])
@@ -559,6 +571,8 @@ def run_check(pid, tier, seed):
             'input_distribution': agg['dist'],
             'proof_obligations_broken': [w for w, _ in proof_broken],
             'source_drift': drifted,
+            'source_translation': src,
+            'notes': notes,
             'budget_scale': scale,
             'known_findings_seen': known_hits,
         },
